@@ -252,6 +252,7 @@ type caseFact struct{ label, body string }
 
 func typeSwitchCases(fd *ast.FuncDecl) []caseFact {
 	var out []caseFact
+	alpha := alphaOf(fd)
 	ast.Inspect(fd.Body, func(n ast.Node) bool {
 		sw, ok := n.(*ast.SwitchStmt)
 		if !ok || sw.Tag == nil {
@@ -268,7 +269,7 @@ func typeSwitchCases(fd *ast.FuncDecl) []caseFact {
 				body = append(body, exprStr(b))
 			}
 			for _, l := range cc.List {
-				out = append(out, caseFact{exprStr(l), strings.Join(body, "; ")})
+				out = append(out, caseFact{exprStr(l), alpha(strings.Join(body, "; "))})
 			}
 		}
 		return true
@@ -366,6 +367,7 @@ func sharedState() []site {
 			if !ok || fd.Body == nil {
 				continue
 			}
+			alpha := alphaOf(fd)
 			// locals and parameters shadow globals of the same name
 			local := map[string]bool{}
 			if fd.Recv != nil {
@@ -386,7 +388,7 @@ func sharedState() []site {
 					if st.Tok == token.DEFINE {
 						for _, r := range st.Rhs {
 							if id := aliasOf(r); id != "" && globals[id] && !local[id] {
-								out = append(out, site{x.rel, funcName(fd), "global-escape", exprStr(st)})
+								out = append(out, site{x.rel, funcName(fd), "global-escape", alpha(exprStr(st))})
 							}
 						}
 						for _, l := range st.Lhs {
@@ -398,17 +400,17 @@ func sharedState() []site {
 					}
 					for _, l := range st.Lhs {
 						if r := root(l); r != "" && globals[r] && !local[r] {
-							out = append(out, site{x.rel, funcName(fd), "global-write", exprStr(st)})
+							out = append(out, site{x.rel, funcName(fd), "global-write", alpha(exprStr(st))})
 						}
 					}
 					for _, r := range st.Rhs {
 						if id := aliasOf(r); id != "" && globals[id] && !local[id] {
-							out = append(out, site{x.rel, funcName(fd), "global-escape", exprStr(st)})
+							out = append(out, site{x.rel, funcName(fd), "global-escape", alpha(exprStr(st))})
 						}
 					}
 				case *ast.IncDecStmt:
 					if r := root(st.X); r != "" && globals[r] && !local[r] {
-						out = append(out, site{x.rel, funcName(fd), "global-write", exprStr(st)})
+						out = append(out, site{x.rel, funcName(fd), "global-write", alpha(exprStr(st))})
 					}
 				case *ast.DeclStmt:
 					if gd, ok := st.Decl.(*ast.GenDecl); ok {
@@ -425,14 +427,14 @@ func sharedState() []site {
 					for _, r := range st.Results {
 						if g := root(r); g != "" && globals[g] && !local[g] && exprStr(r) == strings.TrimPrefix(exprStr(r), "&") {
 							if _, isCall := r.(*ast.CallExpr); !isCall {
-								out = append(out, site{x.rel, funcName(fd), "global-escape", exprStr(st)})
+								out = append(out, site{x.rel, funcName(fd), "global-escape", alpha(exprStr(st))})
 							}
 						}
 					}
 				case *ast.CallExpr:
 					if se, ok := st.Fun.(*ast.SelectorExpr); ok && mut(se.Sel.Name) {
 						if r := root(se.X); r != "" && globals[r] && !local[r] {
-							out = append(out, site{x.rel, funcName(fd), "global-mutating-call", exprStr(st)})
+							out = append(out, site{x.rel, funcName(fd), "global-mutating-call", alpha(exprStr(st))})
 						}
 					}
 				}
@@ -441,6 +443,128 @@ func sharedState() []site {
 		}
 	}
 	return out
+}
+
+
+// ---- alpha-normalisation -------------------------------------------------------------------------
+// Inventory lines and case bodies are compared as text; the names a function gives to its receiver,
+// parameters, results and local variables are replaced by v0, v1, … (order of declaration), so that
+// renaming a local variable does not change a line.  Field and method names (after a '.') are kept.
+
+func localNames(fd *ast.FuncDecl) []string {
+	var names []string
+	seen := map[string]bool{}
+	add := func(id *ast.Ident) {
+		if id != nil && id.Name != "_" && !seen[id.Name] {
+			seen[id.Name] = true
+			names = append(names, id.Name)
+		}
+	}
+	fields := func(fl *ast.FieldList) {
+		if fl == nil {
+			return
+		}
+		for _, f := range fl.List {
+			for _, n := range f.Names {
+				add(n)
+			}
+		}
+	}
+	fields(fd.Recv)
+	fields(fd.Type.Params)
+	fields(fd.Type.Results)
+	if fd.Body != nil {
+		ast.Inspect(fd.Body, func(n ast.Node) bool {
+			switch x := n.(type) {
+			case *ast.AssignStmt:
+				if x.Tok == token.DEFINE {
+					for _, l := range x.Lhs {
+						if id, ok := l.(*ast.Ident); ok {
+							add(id)
+						}
+					}
+				}
+			case *ast.RangeStmt:
+				if x.Tok == token.DEFINE {
+					if id, ok := x.Key.(*ast.Ident); ok {
+						add(id)
+					}
+					if id, ok := x.Value.(*ast.Ident); ok {
+						add(id)
+					}
+				}
+			case *ast.ValueSpec:
+				for _, n := range x.Names {
+					add(n)
+				}
+			case *ast.FuncLit:
+				fields(x.Type.Params)
+				fields(x.Type.Results)
+			}
+			return true
+		})
+	}
+	return names
+}
+
+func isIdentByte(b byte) bool {
+	return b == '_' || (b >= 'a' && b <= 'z') || (b >= 'A' && b <= 'Z') || (b >= '0' && b <= '9') || b >= 0x80
+}
+
+// alphaOf returns the renaming function for the locals of fd
+func alphaOf(fd *ast.FuncDecl) func(string) string {
+	idx := map[string]int{}
+	for i, n := range localNames(fd) {
+		idx[n] = i
+	}
+	return func(text string) string {
+		var sb strings.Builder
+		inStr := byte(0)
+		for i := 0; i < len(text); {
+			ch := text[i]
+			if inStr != 0 {
+				sb.WriteByte(ch)
+				if ch == '\\' && i+1 < len(text) {
+					sb.WriteByte(text[i+1])
+					i += 2
+					continue
+				}
+				if ch == inStr {
+					inStr = 0
+				}
+				i++
+				continue
+			}
+			if ch == '"' || ch == '\'' || ch == '`' {
+				inStr = ch
+				sb.WriteByte(ch)
+				i++
+				continue
+			}
+			if isIdentByte(ch) && !(ch >= '0' && ch <= '9') {
+				j := i
+				for j < len(text) && isIdentByte(text[j]) {
+					j++
+				}
+				word := text[i:j]
+				// previous significant character
+				k := i - 1
+				for k >= 0 && text[k] == ' ' {
+					k--
+				}
+				if n, ok := idx[word]; ok && (k < 0 || text[k] != '.') {
+					fmt.Fprintf(&sb, "v%d", n)
+				} else {
+					sb.WriteString(word)
+				}
+				i = j
+				continue
+			}
+			sb.WriteByte(ch)
+			i++
+		}
+		return sb.String()
+	}
 }
 
 // ---- inventories ----------------------------------------------------------------------------
@@ -489,6 +613,7 @@ func panicSites() []site {
 				continue
 			}
 			fn := funcName(fd)
+			alpha := alphaOf(fd)
 			// type assertions in `v, ok := x.(T)` and type switches are safe
 			safeAssert := map[ast.Node]bool{}
 			ast.Inspect(fd.Body, func(n ast.Node) bool {
@@ -512,28 +637,28 @@ func panicSites() []site {
 			ast.Inspect(fd.Body, func(n ast.Node) bool {
 				switch x := n.(type) {
 				case *ast.IndexExpr:
-					out = append(out, site{rel, fn, "index", exprStr(x)})
+					out = append(out, site{rel, fn, "index", alpha(exprStr(x))})
 				case *ast.SliceExpr:
-					out = append(out, site{rel, fn, "slice", exprStr(x)})
+					out = append(out, site{rel, fn, "slice", alpha(exprStr(x))})
 				case *ast.TypeAssertExpr:
 					if !safeAssert[x] && x.Type != nil {
-						out = append(out, site{rel, fn, "type-assertion", exprStr(x)})
+						out = append(out, site{rel, fn, "type-assertion", alpha(exprStr(x))})
 					}
 				case *ast.BinaryExpr:
 					if x.Op == token.QUO || x.Op == token.REM || x.Op == token.SHL || x.Op == token.SHR {
 						if _, isLit := x.Y.(*ast.BasicLit); !isLit {
-							out = append(out, site{rel, fn, "arith " + x.Op.String(), exprStr(x)})
+							out = append(out, site{rel, fn, "arith " + x.Op.String(), alpha(exprStr(x))})
 						}
 					}
 				case *ast.CallExpr:
 					if id, ok := x.Fun.(*ast.Ident); ok && id.Name == "panic" {
-						out = append(out, site{rel, fn, "explicit-panic", exprStr(x)})
+						out = append(out, site{rel, fn, "explicit-panic", alpha(exprStr(x))})
 					}
 					// calls of the partial accessors (single-value type assertions inside)
 					if se, ok := x.Fun.(*ast.SelectorExpr); ok && len(x.Args) == 0 {
 						switch se.Sel.Name {
 						case "AsInteger", "AsLong", "AsBoolean", "AsFloat", "AsDouble", "AsString", "AsDateTime", "AsTimeSpan":
-							out = append(out, site{rel, fn, "as-call", exprStr(x)})
+							out = append(out, site{rel, fn, "as-call", alpha(exprStr(x))})
 						}
 					}
 				}
@@ -578,6 +703,7 @@ func writeEffects() []site {
 				continue
 			}
 			fn := funcName(fd)
+			alpha := alphaOf(fd)
 			fresh := map[string]bool{}
 			ast.Inspect(fd.Body, func(n ast.Node) bool {
 				as, ok := n.(*ast.AssignStmt)
@@ -620,17 +746,17 @@ func writeEffects() []site {
 						if strings.HasSuffix(target, "Builder") || target == "builder" || target == "result" && kind == "write-to-other" && strings.Contains(fn, "evaluateTokens") {
 							kind = "write-to-local-builder"
 						}
-						out = append(out, site{rel, fn, kind, exprStr(x.Fun)})
+						out = append(out, site{rel, fn, kind, alpha(exprStr(x.Fun))})
 					}
 				case *ast.AssignStmt:
 					for _, l := range x.Lhs {
 						switch lx := l.(type) {
 						case *ast.SelectorExpr:
-							out = append(out, site{rel, fn, "field-assign", exprStr(lx)})
+							out = append(out, site{rel, fn, "field-assign", alpha(exprStr(lx))})
 						case *ast.IndexExpr:
-							out = append(out, site{rel, fn, "index-assign", exprStr(lx)})
+							out = append(out, site{rel, fn, "index-assign", alpha(exprStr(lx))})
 						case *ast.StarExpr:
-							out = append(out, site{rel, fn, "deref-assign", exprStr(lx)})
+							out = append(out, site{rel, fn, "deref-assign", alpha(exprStr(lx))})
 						}
 					}
 				}
@@ -695,10 +821,33 @@ func init() {
 					if !ok {
 						return true
 					}
-					if se, ok := ce.Fun.(*ast.SelectorExpr); ok && exprStr(se.X) == "c.variantOperations" {
+					if se, ok := ce.Fun.(*ast.SelectorExpr); ok && strings.HasSuffix(exprStr(se.X), ".variantOperations") {
+						// operands are named by the order in which the case pops them off the stack (pop1 = popped
+						// first = the operand written last), whatever the local variables are called
+						pops := map[string]string{}
+						ast.Inspect(cc, func(k ast.Node) bool {
+							as, ok := k.(*ast.AssignStmt)
+							if !ok || len(as.Lhs) != 1 || len(as.Rhs) != 1 {
+								return true
+							}
+							if call, ok := as.Rhs[0].(*ast.CallExpr); ok {
+								if sel, ok := call.Fun.(*ast.SelectorExpr); ok && sel.Sel.Name == "Pop" {
+									if id, ok := as.Lhs[0].(*ast.Ident); ok {
+										if _, dup := pops[id.Name]; !dup {
+											pops[id.Name] = fmt.Sprintf("pop%d", len(pops)+1)
+										}
+									}
+								}
+							}
+							return true
+						})
 						var args []string
 						for _, a := range ce.Args {
-							args = append(args, exprStr(a))
+							if id, ok := a.(*ast.Ident); ok && pops[id.Name] != "" {
+								args = append(args, pops[id.Name])
+							} else {
+								args = append(args, exprStr(a))
+							}
 						}
 						if !first {
 							sb.WriteString(",\n   ")
